@@ -279,11 +279,16 @@ macro_rules! run_kind {
         }
         match $kind {
             "code" => go!(client.exchange_code(AuthorizationCode::new("c".to_string())), Result<_, _>, |v| okv(render_token(v), v)),
-            "refresh" => go!(client.exchange_refresh_token(&rt), Result<_, _>, |v| okv(render_token(v), v)),
-            "password" => go!(client.exchange_password(&u, &p), Result<_, _>, |v| okv(render_token(v), v)),
-            "cc" => go!(client.exchange_client_credentials(), Result<_, _>, |v| okv(render_token(v), v)),
+            // (the requests ask for scopes: what the reply says about scopes is reported as the reply says it)
+            "refresh" => go!(client.exchange_refresh_token(&rt).add_scope(Scope::new("requested-1".to_string())), Result<_, _>, |v| okv(render_token(v), v)),
+            "password" => go!(
+                client.exchange_password(&u, &p).add_scopes(vec![Scope::new("requested-1".to_string()), Scope::new("requested-2".to_string())]),
+                Result<_, _>,
+                |v| okv(render_token(v), v)
+            ),
+            "cc" => go!(client.exchange_client_credentials().add_scope(Scope::new("requested-1".to_string())), Result<_, _>, |v| okv(render_token(v), v)),
             "introspect" => go!(client.introspect(&at), Result<_, _>, |v| okv(render_intro(v), v)),
-            "devauth" => go!(client.exchange_device_code(), Result<$devty, _>, |v| okv(render_dev(v), v)),
+            "devauth" => go!(client.exchange_device_code().add_scope(Scope::new("requested-1".to_string())), Result<$devty, _>, |v| okv(render_dev(v), v)),
             "revoke" => go!(
                 client.revoke_token(StandardRevocableToken::AccessToken(AccessToken::new("t".to_string()))).unwrap(),
                 Result<_, _>,
